@@ -624,7 +624,7 @@ func (w *nodeWorld) subscribe(s *nstream, space string, pats []string) {
 		}
 	}
 	w.r.Count("node.sub." + branch)
-	w.finishOp(fmt.Sprintf("nsub %d %s %s", s.sid, tok(space), toks(pats)))
+	w.finishOp(fmt.Sprintf("nsub %d %s %s %s %s", s.sid, s.peer, s.ident, tok(space), toks(pats)))
 }
 
 func (w *nodeWorld) unsubscribe(s *nstream, space string, pats []string) {
@@ -685,7 +685,7 @@ func (w *nodeWorld) publish(s *nstream, o pubOpts) {
 		Relayed:        o.relayed,
 	}
 	w.push(s, &pubsubproto.PubSubMessage{Content: &pubsubproto.PubSubMessage_Publish{Publish: p}}, "publish")
-	op := fmt.Sprintf("npub %d %s %s %s r%s l%s b%s", s.sid, tok(o.space), tok(o.topic), o.ident, b01(o.relayed), b01(!o.badIdLen), b01(o.big))
+	op := fmt.Sprintf("npub %s %s %s %s %s r%s l%s b%s", s.peer, s.ident, tok(o.space), tok(o.topic), o.ident, b01(o.relayed), b01(!o.badIdLen), b01(o.big))
 	obs := w.finishOp(op)
 
 	// ---- the property, stated directly ----
